@@ -349,6 +349,34 @@ def softmax(ctx):
                         bd = strip(bd["b"]["tail"])
                     ok = bd.get("k") == "bin" and bd["op"] == "Div" and e4.local_hid(bd["l"]) == pv and e4.local_hid(bd["r"]) == sh
                     yh = h
+    if not ok:
+        # loop form: `for &e in exps.iter() { y.push(e / sum) }` into a freshly created empty vector
+        for s_ in b["stmts"]:
+            s_ = strip(s_)
+            if s_ is None or s_.get("k") != "for" or s_ is lp:
+                continue
+            src = strip(s_["iter"])
+            if not (src.get("k") == "mcall" and src["name"] == "iter" and e4.local_hid(src["recv"]) == exh):
+                continue
+            pb = pat_binds(s_["pat"])
+            bd = strip(s_["body"])
+            while bd is not None and bd.get("k") == "blk" and not bd["b"]["stmts"]:
+                bd = strip(bd["b"]["tail"])
+            if bd is not None and bd.get("k") == "blk" and len(bd["b"]["stmts"]) == 1 and bd["b"]["tail"] is None:
+                bd = strip(bd["b"]["stmts"][0])
+            if len(pb) != 1 or bd is None or bd.get("k") != "mcall" or bd["name"] != "push":
+                continue
+            dv = strip(bd["args"][0])
+            th = e4.local_hid(bd["recv"])
+            init_y = lets.get(th, (None, None))[1]
+            iy = strip(init_y) if init_y is not None else None
+            empty = iy is not None and iy.get("k") == "call" and iy["callee"].split("::")[-1] in ("new", "with_capacity") and "Vec" in iy["callee"]
+            other = [x for x in walk(fn["body"]) if x.get("k") == "mcall" and x is not bd and e4.local_hid(x.get("recv")) == th
+                     and x["name"] not in ("len", "iter", "clone")]
+            if (empty and not other and dv.get("k") == "bin" and dv["op"] == "Div" and e4.local_hid(dv["l"]) == pb[0][1]
+                    and e4.local_hid(dv["r"]) == sh):
+                ok = True
+                yh = th
     ctx.check("R07.5", "normalisation", ok, "outputs-not-exp-over-sum", c.loc(fn), "y_i = e_i / sum, in order")
     t = strip(b["tail"]) if b["tail"] is not None else None
     okr = (t is not None and t.get("k") == "mcall" and t["callee"] == "tensor::Tensor::reshape" and pretty(strip(t["args"][0])) == "%s.shape.clone()" % fn["params"][1]["name"]
